@@ -131,6 +131,8 @@ def run(ctx):
     # a bare term that ends in an identifier-only stamp/truth keyword (Han) must reach the term segmenter whole (D11)
     import suffix
     suffix.rule_S_SUFFIX(ctx, T)
+    # removing the space between a name and a copula must not change the token boundary
+    tables.rule_T_JUXTAPOSE(ctx, T, models=("enum", "lex"), only_written=tables.emitted_copula_fields(ctx))
     ctx.undecided = ["that removing ALL spaces never glues two tokens for every value (the copula look-ahead and identifier classes make "
                      "this value-dependent)", "the macro's whitespace stripping is an instance of `remove all spaces` and has no separate rule"]
     ctx.assumptions = ["the flag correlation modelled by the typestate (ok = match result {Ok=>true,Err=>false}) is the only one the parser's macros create"]
